@@ -151,4 +151,4 @@ def run(R, tier):
     # Whole-element tables (sa/rules/lexer.py): Tokenizer::next folded on complete representative inputs of every data
     # kind; token kind, payload bytes and the position left behind are compared with the reference lexer. An element
     # that swallows part of its neighbour (or of the `,` / `;` after it) changes what the handler or the next unit sees.
-    lexer.check_elements(R, "R06.7", ("chardata", "decimal", "string", "expression", "block", "non-decimal", "separator"))
+    lexer.check_elements(R, "R06.7", ("chardata", "decimal", "string", "expression", "block", "non-decimal", "separator"), tier == "thorough")
